@@ -110,23 +110,20 @@ def note_tok(n):
 # ================================================================================================ 1. the table tie
 
 def table_tie(res):
-    """regenerate, rebuild the tie module, audit its theorem; returns a list of breakage descriptions"""
+    """regenerate the table, then build + audit the tie theorem (common.audit builds the modules an obligations file
+    lists, so the module that depends on the generated table is rebuilt here and nowhere else); returns breakages"""
     changed, unmapped = gen_exc_table.write()
-    ok, log = lean_build_module("Csverif.Props.C10Tie")
+    aud = audit("C10Tie")
     broken = []
-    info = {"regenerated": True, "changed_since_last_run": changed, "unmapped": unmapped, "tie_module_builds": ok}
-    if not ok:
+    info = {"regenerated": True, "changed_since_last_run": changed, "unmapped": unmapped, "tie_checks": not aud["failures"]}
+    res.coverage["obligations"] = res.coverage.get("obligations", 0) + aud["obligations"]
+    res.coverage["discharged"] = res.coverage.get("discharged", 0) + aud["discharged"]
+    res.coverage["theorems"] = list(res.coverage.get("theorems", [])) + aud.get("theorems", [])
+    if aud["failures"]:
         src, _ = gen_exc_table.generate()
-        broken.append("generated exception table (Gen/ExcTable.lean) no longer equals the audited table: "
-                      "theorem CS.Faults.gen_table_eq_audited does not check; unmapped=%s; lake: %s" % (unmapped, log[-600:]))
         info["generated"] = [l for l in src.split("\n") if l.startswith("def ")]
-        res.coverage["obligations"] = res.coverage.get("obligations", 0) + 1
-    else:
-        aud = audit("C10Tie")
-        res.coverage["obligations"] = res.coverage.get("obligations", 0) + aud["obligations"]
-        res.coverage["discharged"] = res.coverage.get("discharged", 0) + aud["discharged"]
-        res.coverage["theorems"] = list(res.coverage.get("theorems", [])) + aud.get("theorems", [])
-        broken += aud["failures"]
+        broken.append("generated exception table (Gen/ExcTable.lean) no longer equals the audited table: theorem "
+                      "CS.Faults.gen_table_eq_audited does not check; unmapped=%s; %s" % (unmapped, "; ".join(f[-700:] for f in aud["failures"][:2])))
     res.coverage["exception_table"] = info
     return broken
 
@@ -685,12 +682,19 @@ class ScriptRecorder(Recorder):
             self._in_q = False
 
     def user(self, side, kind, *rels, tag=None):
-        self.script.items.append(("U", side, kind, tuple(rels), content(tag) if tag is not None else None))
+        # only ACCEPTED operations enter the script: an attempt the generator filtered out (reuse of a freed name, see
+        # Recorder.freed) or the provider rejected must not be replayed — the families follow an operation by quiescence
+        # only when it was accepted, so replaying a filtered one would put two operations next to each other
+        kids = False
         if kind == "rename":
             t = self.w.tree(side)
-            if rels[0] in t and t[rels[0]][0] == "d" and any(k.startswith(rels[0] + "/") for k in t):
+            kids = rels[0] in t and t[rels[0]][0] == "d" and any(k.startswith(rels[0] + "/") for k in t)
+        ok = super().user(side, kind, *rels, tag=tag)
+        if ok:
+            self.script.items.append(("U", side, kind, tuple(rels), content(tag) if tag is not None else None))
+            if kids:
                 self.script.dir_rename_with_kids = True
-        return super().user(side, kind, *rels, tag=tag)
+        return ok
 
 
 class Replay:
@@ -980,7 +984,7 @@ def faulted_runs(judge, tier, seed, budget):
     """3b: the reliable families x flavours, faults at sampled/all indexes; returns the number of scripts"""
     kinds_cycle = list(FAULT_KINDS)
     scripts = 0
-    n_hist = int(os.environ.get("C10_NHIST", {"quick": 5, "thorough": 12}[tier]))
+    n_hist = int(os.environ.get("C10_NHIST", {"quick": 4, "thorough": 12}[tier]))
     families = [("settled", ALL), ("onesided", ALL), ("conflict", ALL)]
     rngm = rng_for(seed, "c10-faulted")
     keys = set()
@@ -1465,7 +1469,7 @@ def run(res, tier, seed, proof_broken, replay):
     # 3b-d. engine runs
     judge = Judge()
     picks = []
-    total = 40 if tier == "quick" else 780
+    total = int(os.environ.get("C10_BUDGET_S", 24 if tier == "quick" else 780))
     t_start = time.time()
     b2 = Budget(total * 0.25)
     n_eaf = edit_after_fault_runs(judge, tier, seed, b2)
